@@ -111,11 +111,12 @@ def handle (j : Json) : Except String Json := do
     let d ← jdoc (← J.fld j "doc")
     let lay ← jlayout (← J.fld j "lay")
     let ok := docOK2 d && layoutOK ioText d lay
+    let ok2 := docOK2 d && layoutOK2 ioText d lay
     match renders ioText d lay with
-    | none => pure (Json.mkObj [("text", Json.null), ("ok", Json.bool ok)])
+    | none => pure (Json.mkObj [("text", Json.null), ("ok", Json.bool ok), ("ok2", Json.bool ok2)])
     | some t =>
       let tn := univNl t
-      pure (Json.mkObj [("text", sj t), ("ok", Json.bool ok),
+      pure (Json.mkObj [("text", sj t), ("ok", Json.bool ok), ("ok2", Json.bool ok2),
         ("logical", optJ sj (rendersLogical ioText d lay)),
         ("canon", parsedJ (canon d)),
         ("bin", parseAll t),
